@@ -95,7 +95,13 @@ fn gen_setup(rng: &mut Rng, n_terms: usize, nested: bool, max_recs: usize) -> Fa
                 _ => rng.urange(1, n_terms),
             };
             let terms: Vec<u32> = rng.sample_indices(n_terms, kk).iter().map(|i| (*i + 1) as u32).collect();
-            f.recs[k].push(RecFact { id: (r + 1) as u32 * 3 + k as u32, name: format!("{}-{r}", KIND_NAMES[k]), terms });
+            // ids: small numbers that overlap across kinds; 0 and u32::MAX are ordinary record ids
+            let id = match (r, rng.below(6)) {
+                (0, 0) => 0,
+                (0, 1) => u32::MAX,
+                _ => (r + 1) as u32 * 3 + k as u32,
+            };
+            f.recs[k].push(RecFact { id, name: format!("{}-{r}", KIND_NAMES[k]), terms });
         }
     }
     f
